@@ -14,6 +14,7 @@ import (
 	datatransfer "github.com/filecoin-project/go-data-transfer/v2"
 	"github.com/filecoin-project/go-data-transfer/v2/channelmonitor"
 	dtimpl "github.com/filecoin-project/go-data-transfer/v2/impl"
+	"github.com/filecoin-project/go-data-transfer/v2/message"
 
 	"verif/harness/dbl"
 	"verif/harness/gen"
@@ -87,7 +88,15 @@ func TestC14_MgrMonitor(t *testing.T) {
 		backoff := time.Duration(rapid.IntRange(0, 1).Draw(t, "backoffMs")) * time.Millisecond
 		var cmu sync.Mutex
 		completes := map[datatransfer.ChannelID]int{}
+		// the accept timeout: off, or a few milliseconds with the responder's answer arriving
+		// during the open call / right after it / never
+		acceptTO := time.Duration(rapid.SampledFrom([]int{0, 0, 8}).Draw(t, "acceptTimeoutMs")) * time.Millisecond
+		acceptMode := "after-open"
+		if acceptTO > 0 {
+			acceptMode = rapid.SampledFrom([]string{"during-open", "after-open", "never"}).Draw(t, "responderAnswers")
+		}
 		cfg := channelmonitor.Config{
+			AcceptTimeout:          acceptTO,
 			RestartDebounce:        time.Millisecond,
 			RestartBackoff:         backoff,
 			MaxConsecutiveRestarts: uint32(max),
@@ -100,16 +109,87 @@ func TestC14_MgrMonitor(t *testing.T) {
 		r := newMgrRigOpts(t, gen.Peer(0), dbl.NewRecDatastore(), []dtimpl.DataTransferOption{dtimpl.ChannelRestartConfig(cfg)}, "T/a")
 		defer r.stop()
 		var log []string
-		log = append(log, fmt.Sprintf("monitor: max consecutive restarts %d, debounce 1ms, backoff %s, accept/complete timeouts off", max, backoff))
+		log = append(log, fmt.Sprintf("monitor: max consecutive restarts %d, debounce 1ms, backoff %s, complete timeout off", max, backoff))
 		role := rapid.SampledFrom([]string{"createPush", "createPull"}).Draw(t, "role")
 		v := datatransfer.TypedVoucher{Type: "T/a", Voucher: basicnode.NewString("v")}
+		log = append(log, fmt.Sprintf("accept timeout %s, responder answers: %s", acceptTO, acceptMode))
+		if acceptMode == "during-open" {
+			// a fast responder: its accepting response is processed before the open call has returned
+			answer := func(tid datatransfer.TransferID) {
+				done := make(chan struct{})
+				go func() {
+					defer close(done)
+					resp, _ := message.NewResponse(tid, true, false, nil)
+					chid := datatransfer.ChannelID{Initiator: r.self, Responder: gen.Peer(1), ID: tid}
+					_ = r.ev().OnResponseReceived(chid, resp)
+				}()
+				<-done
+			}
+			if role == "createPush" {
+				r.net.OnSend = func(s dbl.Sent) {
+					if req, ok := s.Msg.(datatransfer.Request); ok && s.Msg.IsRequest() && req.IsNew() && s.To == gen.Peer(1) {
+						answer(s.Msg.TransferID())
+					}
+				}
+			} else {
+				r.tr.OnCall = func(call dbl.TCall) {
+					if call.Kind == "open" && call.Msg != nil && call.Chid.Responder == gen.Peer(1) {
+						if req, ok := call.Msg.(datatransfer.Request); ok && req.IsNew() {
+							answer(call.Chid.ID)
+						}
+					}
+				}
+			}
+		}
 		c, err := r.open(role, gen.Peer(1), 0, v, simpleCid(7), strNode("sel"), false)
 		if err != nil {
 			mfail(t, log, "HARNESS/setup", "open %s: %v", role, err)
 		}
-		started := rapid.Bool().Draw(t, "started")
-		if started {
+		r.net.OnSend, r.tr.OnCall = nil, nil
+		started := rapid.Bool().Draw(t, "started") || acceptTO > 0
+		if acceptMode == "never" {
+			// nobody answers: the monitor has to close the channel with an error once the timeout has passed
+			t0 := time.Now()
+			st, ok := r.settleTerminal(c.chid)
+			if !ok || st.Status() != datatransfer.Failed {
+				mfail(t, log, "C14/no-verdict", "no Accept arrived within the accept timeout %s but the channel was not closed with an error (status %s after %s)", acceptTO, datatransfer.Statuses[st.Status()], time.Since(t0).Round(time.Millisecond))
+			}
+			if time.Since(t0) < acceptTO/2 {
+				mfail(t, log, "C14/early-verdict", "the accept timeout %s fired after %s", acceptTO, time.Since(t0))
+			}
+			r.syncAll()
+			nErr := 0
+			for _, p := range r.pub.entries(c.chid) {
+				if p.Code == datatransfer.Error {
+					nErr++
+				}
+			}
+			if nErr != 1 {
+				mfail(t, log, "C14/verdict-count", "%d Error events for one accept-timeout verdict", nErr)
+			}
+			sp.Eval()
+			sp.Nontrivial(stats.FP("mgr-monitor-accept-timeout", role))
+			sp.Class("manager_monitor_accept_timeout_verdict")
+			return
+		}
+		if acceptMode == "during-open" {
+			switch role {
+			case "createPush":
+				r.ev().OnTransferInitiated(c.chid)
+			case "createPull":
+				_ = r.ev().OnChannelOpened(c.chid)
+				r.ev().OnTransferInitiated(c.chid)
+			}
+		} else if started {
 			r.toOngoing(c)
+		}
+		if acceptTO > 0 {
+			// accepted in time: the timeout must stay silent
+			time.Sleep(3 * acceptTO)
+			if st := r.sync(c.chid); st.Status() == datatransfer.Failed || st.Status() == datatransfer.Failing {
+				mfail(t, log, "C14/accept-timeout-fired-although-accepted", "the responder's Accept arrived (%s) within the accept timeout %s, yet the monitor closed the channel: %q", acceptMode, acceptTO, st.Message())
+			}
+			sp.Class("manager_monitor_accepted_in_time_" + acceptMode)
 		}
 		st := r.sync(c.chid)
 		log = append(log, fmt.Sprintf("open %s -> %s", c.String(), datatransfer.Statuses[st.Status()]))
